@@ -34,6 +34,7 @@ class Variant:
     note: str = ''
     also_ok: Sequence[str] = ()                  # other properties' rules are ignored anyway
     patch: Optional[str] = None                  # a unified diff to apply instead of textual edits (seeded changes)
+    revert: Optional[str] = None                 # a `fix:` commit of the analysed repository to undo (fixed findings must come back as violations)
 
 
 def V(prop: str, name: str, file: str, old: str, new: str, expect=None, note: str = '') -> Variant:
@@ -64,6 +65,25 @@ def seed_variants(prop: str) -> list[Variant]:
     return out
 
 
+#: commits that also introduced a helper that later fixes use: only the part that is the repair itself is undone
+REVERT_ONLY = {'a62fac5': ['src/emsarray/conventions/_base.py']}
+
+
+def revert_variants(prop: str) -> list[Variant]:
+    """One variant per `fixed:` entry recorded under this property: the fix undone, the property's check must fire."""
+    import json
+    import re
+    path = SEEDED.parent / 'known_findings.json'
+    out: list[Variant] = []
+    if not path.exists():
+        return out
+    for e in json.loads(path.read_text()).get('fixed', []):
+        m = re.match(r"fixed: property=(C\d\d) ([0-9a-f]{7})", e)
+        if m and m.group(1) == prop:
+            out.append(Variant(prop, f"revert:{m.group(2)}", [], '*', revert=m.group(2)))
+    return out
+
+
 def collect(props: Optional[Sequence[str]] = None, seeds: bool = True) -> list[Variant]:
     import importlib
     out: list[Variant] = []
@@ -76,6 +96,7 @@ def collect(props: Optional[Sequence[str]] = None, seeds: bool = True) -> list[V
         out.extend(getattr(mod, 'VARIANTS', []))
         if seeds:
             out.extend(seed_variants(prop))
+            out.extend(revert_variants(prop))
     return out
 
 
@@ -84,6 +105,16 @@ def _apply(repo: Path, scratch: Path, variant: Variant) -> Optional[str]:
     src = repo / 'src' / 'emsarray'
     dst = scratch / 'src' / 'emsarray'
     shutil.copytree(src, dst, ignore=shutil.ignore_patterns('__pycache__', '*.pyc'))
+    if variant.revert:
+        import subprocess
+        paths = REVERT_ONLY.get(variant.revert, ['src'])
+        d = subprocess.run(['git', '-C', str(repo), 'diff', variant.revert, f"{variant.revert}^", '--'] + paths, capture_output=True, text=True)
+        if d.returncode != 0 or not d.stdout.strip():
+            return f"commit {variant.revert} is not in the history of the analysed repository"
+        r = subprocess.run(['git', 'apply', '-'], input=d.stdout, cwd=scratch, capture_output=True, text=True)
+        if r.returncode != 0:
+            return f"later commits changed the lines of {variant.revert}: it cannot be undone on its own (hand-written variants cover it)"
+        return None
     if variant.patch:
         import subprocess
         r = subprocess.run(['git', 'apply', variant.patch], cwd=scratch, capture_output=True, text=True)
